@@ -106,17 +106,18 @@ def run_case(ctx, text, cfgdir):
         ctx.violation(classify(t1, diff), "effective values differ after round trip: %r" % (diff,),
                       {"ini": text, "cfgdir": cfgdir})
     ctx.count("values_compared", sum(len(x) for x in t1.values()))
-    # replace_config_dir
+    # replace_config_dir: observed on the effective values of the configuration rebuilt from the dict
     repl = "/REPLACED"
     try:
         d2 = c1.get_config_dict(replace_config_dir=repl)
+        t3 = tree(Config(config_dict=d2))
     except Exception as e:
-        ctx.violation("unclassified", "get_config_dict(replace_config_dir) raised %r" % (e,), {"ini": text})
+        ctx.violation(classify(t1, e), "round trip with replace_config_dir raised %r" % (e,), {"ini": text, "cfgdir": cfgdir})
         return
     for path, vals in t1.items():
-        got = d2.get(".".join(path))
+        got = t3.get(path)
         if got is None or set(got) != set(vals):
-            ctx.violation("replace-config-dir-structure", "section %r keys differ" % (path,), {"ini": text})
+            ctx.violation("replace-config-dir-structure", "section %r keys differ" % (path,), {"ini": text, "cfgdir": cfgdir})
             continue
         for k, v in vals.items():
             exp = v.replace(cfgdir, repl) if cfgdir in v else v
@@ -125,8 +126,8 @@ def run_case(ctx, text, cfgdir):
             else:
                 ctx.count("config_dir_values_untouched")
             if got[k] != exp:
-                ctx.violation("replace-config-dir-value", "%r.%s: %r -> %r expected %r" % (path, k, v, got[k], exp),
-                              {"ini": text, "cfgdir": cfgdir})
+                ctx.violation(classify(t1, None) if "$" in v else "replace-config-dir-value",
+                              "%r.%s: %r -> %r expected %r" % (path, k, v, got[k], exp), {"ini": text, "cfgdir": cfgdir})
 
 
 def shard(ctx, n, sub):
